@@ -67,7 +67,7 @@ def summarise(rec):
 
 def configs(ctx):
     rng = ctx.rng
-    n = ctx.budget(22, 400)
+    n = ctx.budget(20, 400)
     out = []
     kinds = list(optrun.OPTIMISERS)
     for i in range(n):
@@ -100,6 +100,9 @@ def configs(ctx):
     # objective values of large magnitude with small differences
     for j in range(ctx.budget(4, 24)):
         out.append(optrun.magnitude_config(rng))
+    # container-valued node parameters edited in place by a user mutation
+    for j in range(ctx.budget(3, 16)):
+        out.append(optrun.container_params_config(rng))
     # user subclasses of the verifier / of the fitness class
     for j in range(ctx.budget(4, 20)):
         out.append(optrun.subclass_config(rng))
